@@ -84,7 +84,7 @@ func c18OwnerOnly(v ssa.Value) (bool, bool) {
 
 func c18R1(c *Ctx, fns []*ssa.Function) {
 	const R1 = "C18.R1.atomic-replace"
-	c.Expect(R1, 12)
+	c.Expect(R1, 7) // effect-set, CreateTemp, Rename, Close, 2x error-surfaces, success-implies-content-written; chmod/mkdir/remove are permitted effects that may disappear
 	inPkg := map[*ssa.Function]bool{}
 	callers := map[*ssa.Function][]ssa.CallInstruction{}
 	for _, f := range fns {
@@ -775,7 +775,7 @@ var c18Mutants = []Mutant{
 		New:    "\tingest, _ := ioutil.Ingest(configDir, bytes.NewReader(jsonBytes))\n",
 		Expect: "C18.R1.atomic-replace|(*~/registry/remote/credentials/internal/config.Config).saveFile|os.Rename"},
 	{Name: "world-readable-temp-file", File: "registry/remote/credentials/internal/ioutil/ioutil.go",
-		Old:    "tempFile.Chmod(0600)", New: "tempFile.Chmod(0644)",
+		Old: "tempFile.Chmod(0600)", New: "tempFile.Chmod(0644)",
 		Expect: "C18.R1.atomic-replace|~/registry/remote/credentials/internal/ioutil.Ingest|(*os.File).Chmod"},
 	{Name: "cleanup-removes-config", File: "registry/remote/credentials/internal/config/config.go",
 		Old:    "\t\t\tos.Remove(ingest)\n\t\t}\n\t}()\n\n\t// overwrite",
